@@ -48,6 +48,7 @@ class St:
         self.cfg = cfg
         self.ver = cfg.get("arch_version", 6)
         self.unknown = set()        # locations whose final value is UNKNOWN
+        self.unknown_bits = {}      # location -> mask of bits whose final value is UNKNOWN
         self.mem_unknown = set()    # byte addresses whose final value is UNKNOWN
         self.pc_written = False
         self.ilen = 4
@@ -260,6 +261,9 @@ class St:
             if n in self.unknown:
                 continue
             if loc[n] != v:
+                ub = self.unknown_bits.get(n)
+                if ub is not None and isinstance(v, int) and (loc[n] & ~ub) == (v & ~ub):
+                    continue
                 out.append((n, loc[n], v))
         exp = self.mem.snapshot()
         if exp != tuple(mem_after):
